@@ -173,15 +173,18 @@ impl Evaluate for Pair {
     }
 }
 pub fn rec_pw(ends: &[f64]) -> Piecewise<Rec> {
+    let key = ends.iter().fold(ends.len() as u64, |a, e| a.wrapping_mul(31).wrapping_add(e.to_bits() >> 7));
     Piecewise {
-        segments: ends
-            .iter()
-            .enumerate()
-            .map(|(i, e)| Segment {
-                end: *e,
-                poly: Rec::new(i as u32),
-            })
-            .collect(),
+        segments: crate::flat::with_spare_capacity(
+            ends.iter()
+                .enumerate()
+                .map(|(i, e)| Segment {
+                    end: *e,
+                    poly: Rec::new(i as u32),
+                })
+                .collect(),
+            key,
+        ),
     }
 }
 
